@@ -17,7 +17,10 @@ Min(a, b) == IF a < b THEN a ELSE b
 PageSize(n, m) == IF n = 0 THEN m ELSE IF m = 0 THEN n ELSE Min(n, m)      \* 0: unlimited
 
 \* the items the listing must deliver: after `last`, matching the filter (types[i] for referrers)
-Wanted(c) == SelectSeq([i \in 1..c.len |-> i], LAMBDA i : i > c.last /\ (c.filter = "" \/ c.types[i] = c.filter))
+\* api "ocitags" is the OCI-layout store's Tags: items 1..len are a sorted universe of tag names of which those with
+\* types[i] = "A" are tags at present; `last` may be any name of the universe, tag or not
+Wanted(c) == SelectSeq([i \in 1..c.len |-> i],
+                       LAMBDA i : i > c.last /\ (IF c.api = "ocitags" THEN c.types[i] = "A" ELSE (c.filter = "" \/ c.types[i] = c.filter)))
 
 \* one server page starting after item `after`: [items, next] ; next = 0: no Link
 \* with server-side filtering the server walks the filtered list
@@ -43,7 +46,9 @@ Loop(c, after, pages, reqs, pageno) ==
      ELSE IF called /\ c.cbfail = Len(pages2) THEN [pages |-> pages2, reqs |-> reqs2, outcome |-> "cb"]
      ELSE IF p.next = 0 THEN [pages |-> pages2, reqs |-> reqs2, outcome |-> "ok"]
      ELSE Loop(c, p.next, pages2, reqs2, pageno + 1)
-Run(c) == Loop(c, c.last, <<>>, <<>>, 1)
+Run(c) == IF c.api = "ocitags"      \* no server: the callback gets the whole (possibly empty) listing at once
+          THEN [pages |-> <<Wanted(c)>>, reqs |-> <<>>, outcome |-> IF c.cbfail = 1 THEN "cb" ELSE "ok"]
+          ELSE Loop(c, c.last, <<>>, <<>>, 1)
 
 RECURSIVE Flatten(_)
 Flatten(ps) == IF ps = <<>> THEN <<>> ELSE Head(ps) \o Flatten(Tail(ps))
